@@ -131,3 +131,15 @@ Proof.
            repeat constructor; unfold u32_ok; simpl; lia. }
   apply map_Forall_insert_2; [|apply map_Forall_singleton]; unfold sval_wf, u32_ok; cbn; unfold StreamValueProofs.exp_ok; cbn; lia.
 Qed.
+
+(* ---- the Mercury observation messages (v1-v4): proto.Marshal / proto.Unmarshal as modelled in MercuryObserve / MercuryWire
+   (both compared byte for byte with the real library) round-trip for every well-formed message ---- *)
+From DS Require MercuryReport MercuryWire MercuryObserve MercObserveProofs.
+Theorem C16_mercury_observation_roundtrip : forall ver (m : MercuryReport.mobs), ver = 2 \/ ver = 3 \/ ver = 4 ->
+  MercObserveProofs.mobs_wf ver m -> MercuryWire.merc_decode234 ver (MercuryObserve.merc_encode234 ver m) = Some m.
+Proof. exact MercObserveProofs.merc_roundtrip234. Qed.
+Theorem C16_mercury_observation1_roundtrip : forall (m : MercuryReport.mobs1),
+  MercObserveProofs.mobs1_wf m -> MercuryWire.merc_decode1 (MercuryObserve.merc_encode1 m) = Some m.
+Proof. exact MercObserveProofs.merc_roundtrip1. Qed.
+Print Assumptions C16_mercury_observation_roundtrip.
+Print Assumptions C16_mercury_observation1_roundtrip.
